@@ -173,3 +173,144 @@ fn chunk_reader_overreporting_reader_panics_cleanly() {
 	// reached only if the source failed before lying
 	assert!(r.is_err() || !cr.reader.lied, "an over-reported length was accepted");
 }
+
+// ---- Chunker::next against a scripted libyaml (C03 / C05 / C09: every document exactly once, in order,
+// deferred by one event, with the right bytes and the right collection / scalar classification) ----------
+use super::parser::verif_kani::{fake_new, scripted_next_event, EV_TYPE, EV_START, EV_END, EV_LEN, EV_POS};
+const STREAM_START: u32 = 1; const STREAM_END: u32 = 2; const DOC_START: u32 = 3; const DOC_END: u32 = 4;
+const ALIAS: u32 = 5; const SCALAR: u32 = 6; const SEQ_START: u32 = 7; const SEQ_END: u32 = 8; const MAP_START: u32 = 9; const MAP_END: u32 = 10;
+
+fn script(events: &[(u32, u64, u64)]) {
+	unsafe { EV_LEN = events.len(); EV_POS = 0; let mut i = 0; while i < events.len() { EV_TYPE[i] = events[i].0; EV_START[i] = events[i].1; EV_END[i] = events[i].2; i += 1; } }
+}
+// stream contents are concrete, pairwise distinct ASCII letters (offsets are what matters here; symbolic contents put
+// String::from_utf8's validation loop over symbolic bytes out of reach)
+fn ascii_stream<const N: usize>() -> [u8; N] { let mut d = [0u8; N]; let mut i = 0; while i < N { d[i] = b'a' + i as u8; i += 1; } d }
+// a source that delivers deterministically (whole requests, no faults): buffer sizes stay concrete, which the
+// Vec::drain / split_off calls behind trim_to_offset / take_to_offset need (see the note further up)
+struct Whole<const N: usize> { data: [u8; N], off: usize }
+impl<const N: usize> Read for Whole<N> {
+	fn read(&mut self, buf: &mut [u8]) -> io::Result<usize> {
+		let k = std::cmp::min(N - self.off, buf.len());
+		let mut i = 0; while i < k { buf[i] = self.data[self.off + i]; i += 1; }
+		self.off += k;
+		Ok(k)
+	}
+}
+fn chunker_over<const N: usize>(data: [u8; N]) -> Chunker<Whole<N>> { Chunker::new(Whole { data, off: 0 }) }
+fn is_doc(item: &Option<io::Result<Document>>, data: &[u8], a: usize, b: usize, collection: bool) -> bool {
+	match item { Some(Ok(d)) => d.content().as_bytes() == &data[a..b] && d.is_collection() == collection, _ => false }
+}
+
+/// Two documents with a gap between them and trailing bytes: stream = doc1[0..2) gap[2..4) doc2[4..7) rest[7..8).
+#[kani::proof]
+#[kani::unwind(9)]
+#[kani::stub(Parser::new, fake_new)]
+#[kani::stub(Parser::next_event, scripted_next_event)]
+fn chunker_next_two_documents_with_gap() {
+	let data = ascii_stream::<8>();
+	script(&[(DOC_START, 0, 0), (MAP_START, 0, 1), (DOC_END, 2, 2), (DOC_START, 4, 4), (SCALAR, 4, 7), (DOC_END, 7, 7)]);
+	let mut c = chunker_over(data);
+	let d1 = c.next();
+	assert!(is_doc(&d1, &data, 0, 2, true), "first document: bytes [0,2), a collection");
+	assert!(unsafe { EV_POS } == 4, "a document is emitted when the NEXT document starts (one-document deferral), not later");
+	std::mem::forget(d1);
+	std::mem::forget(c);
+}
+
+/// From the state after the first document was emitted (second document started at offset 4, bytes [4,8) read):
+/// the second document is exactly [4,7) -- the gap [2,4) belongs to no document -- and it is a scalar document.
+#[kani::proof]
+#[kani::unwind(9)]
+#[kani::stub(Parser::new, fake_new)]
+#[kani::stub(Parser::next_event, scripted_next_event)]
+fn chunker_next_second_document() {
+	let data = ascii_stream::<8>();
+	script(&[(SCALAR, 4, 7), (DOC_END, 7, 7), (STREAM_END, 8, 8)]);
+	let mut c = chunker_over(data);
+	{
+		let r = c.parser.reader_mut();
+		r.reader.off = 8;
+		r.captured.extend_from_slice(&data[4..8]);
+		r.captured_start_offset = 4;
+	}
+	unsafe { super::parser::verif_kani::EV_DELIVERED = 8; }
+	let d2 = c.next();
+	assert!(is_doc(&d2, &data, 4, 7, false), "second document: bytes [4,7) and a scalar");
+	assert!(c.stream_ended && c.last_document.is_none());
+	assert!(unsafe { EV_POS } == 3);
+	std::mem::forget(d2);
+	std::mem::forget(c);
+}
+
+/// At STREAM-END the pending document is emitted exactly once; afterwards next() is None and never asks the
+/// parser again.
+#[kani::proof]
+#[kani::unwind(9)]
+#[kani::stub(Parser::new, fake_new)]
+#[kani::stub(Parser::next_event, scripted_next_event)]
+fn chunker_next_end_of_stream_is_final() {
+	let data = ascii_stream::<2>();
+	script(&[(STREAM_END, 2, 2)]);
+	let mut c = chunker_over(data);
+	let pending: bool = kani::any();
+	if pending { c.last_document = Some(Document { content: String::from("ab"), kind: Some(DocumentKind::Collection) }); }
+	let d = c.next();
+	match &d {
+		Some(Ok(doc)) => assert!(pending && doc.content() == "ab" && doc.is_collection()),
+		None => assert!(!pending),
+		Some(Err(_)) => assert!(false),
+	}
+	assert!(c.stream_ended);
+	let after = c.next();
+	assert!(after.is_none(), "no document twice");
+	assert!(unsafe { EV_POS } == 1, "no event requested after STREAM-END");
+	std::mem::forget(d);
+	std::mem::forget(c);
+}
+
+/// Bytes before the first document (a comment line) belong to no document; an empty document has no kind.
+#[kani::proof]
+#[kani::unwind(9)]
+#[kani::stub(Parser::new, fake_new)]
+#[kani::stub(Parser::next_event, scripted_next_event)]
+fn chunker_next_leading_gap_and_empty_document() {
+	let data = ascii_stream::<6>();
+	script(&[(STREAM_START, 0, 0), (DOC_START, 3, 3), (DOC_END, 5, 5), (STREAM_END, 6, 6)]);
+	let mut c = chunker_over(data);
+	let d1 = c.next();
+	let d2 = c.next();
+	assert!(is_doc(&d1, &data, 3, 5, false), "document starts at its DOCUMENT-START mark, not at the start of the stream");
+	assert!(d2.is_none());
+	std::mem::forget(d1);
+	std::mem::forget(c);
+}
+
+/// A parser error is reported as InvalidData and the pending document is NOT emitted (detection must not accept
+/// input whose next document fails to parse).
+#[kani::proof]
+#[kani::unwind(9)]
+#[kani::stub(Parser::new, fake_new)]
+#[kani::stub(Parser::next_event, scripted_next_event)]
+fn chunker_next_parser_error_after_first_document() {
+	let data = ascii_stream::<4>();
+	script(&[(DOC_START, 0, 0), (SCALAR, 0, 2), (DOC_END, 2, 2), (0, 0, 0)]);
+	let mut c = chunker_over(data);
+	let d1 = c.next();
+	match &d1 { Some(Err(e)) => assert!(e.kind() == io::ErrorKind::InvalidData), _ => assert!(false, "a document was emitted although the parser failed before the next document started") }
+	std::mem::forget(d1);
+	std::mem::forget(c);
+}
+
+/// An empty stream has no documents.
+#[kani::proof]
+#[kani::unwind(9)]
+#[kani::stub(Parser::new, fake_new)]
+#[kani::stub(Parser::next_event, scripted_next_event)]
+fn chunker_next_empty_stream() {
+	let data = ascii_stream::<2>();
+	script(&[(STREAM_START, 0, 0), (STREAM_END, 0, 0)]);
+	let mut c = chunker_over(data);
+	assert!(c.next().is_none() && c.next().is_none());
+	std::mem::forget(c);
+}
